@@ -247,28 +247,68 @@ def r20_3(run):
 
 
 def r20_4(run):
+    from ..arrnf import ANF, C, base_of, contains, expect, key as tkey, match, show as tshow, walk
     ix = run.index
     f = ix.func(MRC + "._evaluate_multinet")
     run.analysed(f)
     w = run.where(f, f.node)
-    agg = [n for n in own_walk(f.node) if isinstance(n, ast.Assign) and U(n.targets[0]).replace('"', "'") == "ctrl_variables['converged']"]
-    ok = len(agg) == 1 and isinstance(agg[0].value, ast.Call) and U(agg[0].value.func) in ("np.all", "all", "numpy.all", "min")
+    ps = f.params()
+    r = ANF(ix, f, param_alias=dict(zip(ps, ("multinet", "levelorder", "ctrl_variables")))).run()
+    agg = [s_ for s_ in r.stores() if s_.index == (C("converged"),) and tkey(base_of(s_.base)) == tkey(("n", "ctrl_variables"))]
+    ok = len(agg) == 1 and agg[0].value[0] == "call" and agg[0].value[1] in (("x", "numpy.all"), ("x", "builtins.all"), ("x", "builtins.min"))
+    lst = agg[0].value[2][0] if ok else None
     run.ob("evaluate|conjunctive", ok, "the multinet verdict is the conjunction of the member verdicts", w,
-           detail=U(agg[0].value) if agg else None)
-    loops = [n for n in own_walk(f.node) if isinstance(n, ast.For)]
-    ok = len(loops) == 1 and "multinet['nets'].keys()" in U(loops[0].iter).replace('"', "'")
-    run.ob("evaluate|all-members-counted", ok and any("multinet_converged" in U(s) and "['converged']" in U(s).replace('"', "'") for s in loops[0].body),
-           "every member net contributes its verdict", w)
-    upd = [n for n in ast.walk(f.node) if isinstance(n, ast.IfExp) and "_evaluate_net" in U(n.body)]
-    ok = len(upd) == 1 and U(upd[0].test).replace(" ", "") == "np.any(rel_nets[net_name])" and \
-        U(upd[0].orelse).replace('"', "'") == "ctrl_variables['nets'][net_name]"
-    run.ob("evaluate|only-relevant-nets-rerun", ok, "only nets selected by _relevant_nets are re-evaluated; the others keep their entry", w)
-    r = ix.func(MRC + "._relevant_nets")
-    run.analysed(r)
-    src = U(r.node)
-    ok = "ctrl.get_all_net_names()" in src and "rel_levelorder or rel_levelorder_multi" in src
-    run.ob("relevant_nets|own-or-coupled", ok, "a net is relevant if one of its own controllers or a coupling controller naming it is in the level", run.where(r, r.node))
-    n = ix.func(MRC + ".net_initialization_multinet")
+           detail=tshow(agg[0].value)[:120] if agg else None)
+    ok2 = False
+    if ok and lst[0] == "phi":
+        lid = lst[1]
+        loop = r.loops.get(lid)
+        upd = loop["env"].get(lst[2]) if loop else None
+        it_ok = loop is not None and tkey(loop["iter"]) == tkey(expect(ix, f, "multinet['nets'].keys()"))
+        member = expect(ix, f, "ctrl_variables['nets'][K]['converged']", env={"K": ("loop", lid, 0)})
+        ok2 = it_ok and upd is not None and upd[0] == "opn" and upd[1] == "+" and any(x[0] == "carried" for x in upd[2]) \
+            and any(x[0] == "list" and len(x[1]) == 1 and x[1][0][0] == "idx" and x[1][0][2] == (C("converged"),) and contains(x[1][0], ("loop", lid, 0))
+                    for x in upd[2])
+    run.ob("evaluate|all-members-counted", ok2, "every member net of multinet['nets'] contributes its verdict", w)
+    rn = ix.func(MRC + "._relevant_nets")
+    st = [s_ for s_ in r.stores() if s_.loops and s_.base == expect(ix, f, "ctrl_variables['nets']")]
+    ok = len(st) == 1 and st[0].value[0] == "ite"
+    if ok:
+        c_, a_, b_ = st[0].value[1:]
+        K = st[0].index[0]
+        rel = ("idx", ("call", ("f", rn.qualname), (("n", "multinet"), expect(ix, f, "np.array(levelorder)")), ()), (K,))
+        ok = c_[0] == "call" and c_[1] in (("x", "numpy.any"), ("x", "builtins.any")) and tkey(c_[2][0]) == tkey(rel) \
+            and a_[0] == "call" and a_[1][0] in ("x", "f") and a_[1][1].endswith("_evaluate_net") and tkey(b_) == tkey(expect(ix, f, "ctrl_variables['nets'][K]", env={"K": K})) \
+            and tkey(a_[2][0]) == tkey(expect(ix, f, "multinet['nets'][K]", env={"K": K}))
+    run.ob("evaluate|only-relevant-nets-rerun", ok, "exactly the nets selected by _relevant_nets are re-evaluated; the others keep their entry", w)
+    run.analysed(rn)
+    ps = rn.params()
+    rr = ANF(ix, rn, param_alias=dict(zip(ps, ("multinet", "levelorder")))).run()
+    st = [s_ for s_ in rr.stores() if s_.loops and base_of(s_.base)[0] == "new"]
+    ok = len(st) == 1 and st[0].value[0] == "bool" and st[0].value[1] == "or" and len(st[0].value[2]) == 2
+    detail = tshow(st[0].value)[:300] if st else None
+    if ok:
+        K = st[0].index[0]
+        lo = expect(ix, rn, "np.array(levelorder)")
+        own = expect(ix, rn, "any(LO[:, 1].__eq__(multinet['nets'][K]))", env={"LO": lo, "K": K})
+        own2 = expect(ix, rn, "any(LO[:, 1] == multinet['nets'][K])", env={"LO": lo, "K": K})
+        parts = list(st[0].value[2])
+        has_own = any(tkey(p_) in (tkey(own), tkey(own2)) for p_ in parts)
+        coupled = [p_ for p_ in parts if tkey(p_) not in (tkey(own), tkey(own2))]
+        ok_c = False
+        if len(coupled) == 1:
+            # K in <names of all nets named by the multinet-level controllers of this level>
+            comps = [x for x in walk(coupled[0]) if x[0] == "comp"]
+            mem = [x for x in walk(coupled[0]) if x[0] == "cmp" and x[1] == "in" and tkey(x[2]) == tkey(K)]
+            ctrl = expect(ix, rn, "LO[LO[:, 1].__eq__(multinet), 0]", env={"LO": lo})
+            ctrl2 = expect(ix, rn, "LO[LO[:, 1] == multinet, 0]", env={"LO": lo})
+            ok_c = bool(mem) and bool(comps) and all(
+                c[2] == ("call", ("attr", ("b", 0), "get_all_net_names"), (), ()) and len(c[3]) == 1 and not c[3][0][2]
+                and tkey(c[3][0][1]) in (tkey(ctrl), tkey(ctrl2)) for c in comps)
+        ok = has_own and ok_c
+    run.ob("relevant_nets|own-or-coupled", ok,
+           "a net is relevant iff one of its own controllers is in the level or a multinet-level controller of the level names it "
+           "(all names returned by get_all_net_names)", run.where(rn, rn.node), detail=detail)
     run.note("net_initialization_multinet aggregates with max(); at that point every member has either converged or raised, recorded as a note")
     run.floor(4)
 
